@@ -90,9 +90,6 @@ func (t *tversion) handle(cs *connState) message {
 	// string, or a version string identifying an earlier defined protocol version".
 	atomic.StoreUint32(&cs.messageSize, msize)
 	atomic.StoreUint32(&cs.version, version)
-	// This is not thread-safe. We're changing this into sessions anyway,
-	// so who cares.
-	cs.baseVersion = baseVersion
 
 	// Initial a pool with msize-shaped buffers, and a buffer of zeros.
 	//
